@@ -296,6 +296,34 @@ func (e *executor) executeString() (string, error) {
 	return strings.TrimSpace(string(stdOutContents)), nil
 }
 
+// executeNULTerminated runs the constructed Git command, which must have been
+// asked for NUL terminated output (`-z`), and returns the records in its
+// stdout. Nothing is trimmed or unquoted, so path names are returned verbatim
+// whatever characters they contain.
+func (e *executor) executeNULTerminated() ([]string, error) {
+	stdOut, stdErr, err := e.execute()
+	if err != nil {
+		stdErrContents, newErr := io.ReadAll(stdErr)
+		if newErr != nil {
+			return nil, fmt.Errorf("unable to read stderr contents: %w; original err: %w", newErr, err)
+		}
+		return nil, fmt.Errorf("%w when executing `git %s`: %s", err, strings.Join(e.args, " "), string(stdErrContents))
+	}
+
+	stdOutContents, err := io.ReadAll(stdOut)
+	if err != nil {
+		return nil, fmt.Errorf("unable to read stdout contents: %w", err)
+	}
+
+	records := strings.Split(string(stdOutContents), "\x00")
+	if len(records) > 0 && records[len(records)-1] == "" {
+		// every record is terminated by NUL, so the last element is empty
+		records = records[:len(records)-1]
+	}
+
+	return records, nil
+}
+
 // execute runs the constructed Git command and returns the raw stdout and
 // stderr contents. It adds the `--git-dir` argument if the repository has a
 // path set.
